@@ -180,6 +180,10 @@ def r_best(m, rep, R='R1.2b'):
         rep.check(ok, R, _w(m.locals[name].line), 'outside:shape:' + name,
                   'outside table %s is (length+1) x (length+1)' % name,
                   'outside table %s has dims %s' % (name, [canon(x) for x in (a or ())]))
+    # every working object of the search is a fresh automatic local of this call (nothing survives between sentences)
+    persistent = sorted(n_ for n_, d_ in m.locals.items() if d_.storage)
+    rep.check(not persistent, R, _w(m.body.line), 'locals:automatic', 'all %d locals of parse_sentence have automatic storage: every sentence starts from fresh queues, tables and charts' % len(m.locals),
+              'locals with static / thread storage keep their contents between sentences: %s' % [(n_, m.locals[n_].storage) for n_ in persistent])
     # statement order: init loop < outside calls < leaf loop < search loop
     idx = {id(s): i for i, s in enumerate(m.top)}
     order = [idx[id(m.init_loop)]] + [idx[id(o[3])] for o in m.outside] + [idx[id(m.leaf_loop)], idx[id(m.main_loop)]]
